@@ -565,6 +565,30 @@ pub fn exec(pool: &mut Pool, ev: &mut Value) {
             set(ev, "outs", json!(outs));
         }
         "util" => crate::utilx::exec_util(ev),
+        // SpaceUsage of the std containers the crate implements it for (no pool object)
+        "spstd" => {
+            let shape = ev["shape"].as_str().unwrap_or("").to_string();
+            let lens: Vec<usize> = ev["lens"].as_array().map(|a| a.iter().map(|v| v.as_u64().unwrap_or(0) as usize).collect()).unwrap_or_default();
+            let l0 = live_bytes();
+            let r = guard(|| crate::utilx::space_std(&shape, &lens, l0));
+            match r {
+                Ok(Some((rep, heap, selfsz))) => {
+                    set(ev, "rep", json!(res_val(rep)));
+                    set(ev, "heap", json!(heap));
+                    set(ev, "selfsz", json!(selfsz as i64));
+                }
+                Ok(None) => {
+                    set(ev, "rep", json!(NA));
+                    set(ev, "heap", json!(NA));
+                    set(ev, "selfsz", json!(NA));
+                }
+                Err(_) => {
+                    set(ev, "rep", json!(PANIC));
+                    set(ev, "heap", json!(NA));
+                    set(ev, "selfsz", json!(NA));
+                }
+            }
+        }
         "internals" => {
             let o = ev["o"].as_i64().unwrap();
             let v = pool.objs.get(&o).map(|x| x.internals()).unwrap_or(Value::Null);
